@@ -4,7 +4,7 @@
 Require Extraction.
 Require Import ExtrOcamlBasic.
 From PV Require Import Base.Res.
-From PVPb Require Import Wire Codec Msg Own.
+From PVPb Require Import Wire Codec Msg Own GroupMsg.
 
 Extraction "model.ml"
   Z.add Z.mul Z.sub Z.opp Z.div Z.modulo Z.ltb Z.eqb Z.of_nat Z.to_nat Z.of_N Pos.succ
@@ -17,5 +17,6 @@ Extraction "model.ml"
   msg_decode msg_merge msg_decode_length_delimited enc_msg len_msg default_msg wt_msg schema_ok
   module_of_decl scalar_module
   wrapper_decode wrapper_merge wrapper_decode_length_delimited wrapper_enc wrapper_len
+  gh_decode gh_enc gh_len
   own_decode own_wrapper_decode l_heap l_refs l_tail faststr_inline_cap
   err site.
